@@ -76,6 +76,38 @@ def run(ctx):
         e = rand_expr(rnd, rnd.choice([1, 2]), V4)
         pre = [(' | '.join(rnd.sample(V4, rnd.choice([2, 3, 4]))), rnd.sample(V4, 4))] if rnd.random() < 0.7 else []
         cases.append({'op': 'build', 'notation': rnd.choice(['expr', 'lambda']), 'order': order, 'e': e, 'style': 'sym', 'pre': pre})
+    # restrict / apply on diagrams that SHARE a node between branches at different levels, over orderings with hundreds of
+    # unused variables (size-dependent code paths of the operations)
+    for _ in range(150 if q else 3000):
+        order = rnd.sample(V5, 5)
+        x, y, u, v, w = order
+        S = rnd.choice([('and', ('var', v), ('var', w)), ('or', ('var', v), ('not', ('var', w))), ('and', ('not', ('var', v)), ('var', w))])
+        e1 = rnd.choice([('or', ('and', ('var', x), S), ('and', ('not', ('var', x)), ('or', ('var', y), S))),
+                         ('and', ('or', ('var', x), ('or', ('var', y), ('var', u))), ('or', S, ('and', ('var', x), ('not', S)))),
+                         ('or', ('and', ('var', x), ('and', ('var', y), S)), ('and', ('not', ('var', x)), S))])
+        cases.append({'op': 'restrict', 'order': order, 'e1': e1, 'v': rnd.choice([v, w, u]), 'b': rnd.random() < 0.5, 'style': 'sym', 'pad': True,
+                      'seed': rnd.randrange(1 << 30)})
+        if rnd.random() < 0.3:
+            cases.append({'op': 'binop', 'order': order, 'e1': e1, 'e2': S, 'bop': rnd.choice(['and', 'or', 'xor']), 'style': 'sym', 'pad': True,
+                          'seed': rnd.randrange(1 << 30)})
+    # a sub-diagram reached directly from the root on one branch and through a chain of two or three nodes on the other
+    # ((x | y & u) & S and its variants over 5-6 variables), restricted / combined on the variables of the shared part
+    V6 = ['a', 'b', 'c', 'd', 'e', 'f']
+    for _ in range(250 if q else 5000):
+        k = rnd.choice([5, 5, 6])
+        order = rnd.sample(V6, k) if rnd.random() < 0.5 else sorted(rnd.sample(V6, k))
+        early, late = order[:k - 2], order[k - 2:]
+        lit = lambda z: ('var', z) if rnd.random() < 0.7 else ('not', ('var', z))
+        chain = lit(early[-1])
+        for z in reversed(early[:-1]):
+            chain = (rnd.choice(['and', 'or']), lit(z), chain)
+        S = (rnd.choice(['and', 'or']), lit(late[0]), lit(late[1]))
+        e1 = (rnd.choice(['and', 'or']), chain, S)
+        if rnd.random() < 0.3:
+            e1 = ('not', e1)
+        for v in (late if rnd.random() < 0.7 else [rnd.choice(order)]):
+            cases.append({'op': 'restrict', 'order': order, 'e1': e1, 'v': v, 'b': rnd.random() < 0.5, 'style': 'sym', 'pad': rnd.random() < 0.15,
+                          'seed': rnd.randrange(1 << 30)})
     events = bddfam.run_bool_events(ctx, cases)
     # the same operations in fresh interpreters whose terminal nodes are first created from ints / by nodes()
     sub = [dict(c) for c in rnd.sample([c for c in cases if c['op'] in ('binop', 'not', 'restrict')], 600 if q else 12000)]
